@@ -83,7 +83,7 @@ def programs():
         out.append(("%s/rvalue_var" % et, su + A + pr("(l an der Stelle i)") + Bm, m_index))
         out.append(("%s/rvalue_temp" % et, su + A + pr("((l ab dem 1. Element) an der Stelle i)") + Bm, m_index))
         out.append(("%s/rvalue_byteindex" % et, su + A + pr("(l an der Stelle (i als Byte))") + Bm,
-                    lambda n, i, j, et=et: m_index(n, i & 0xFF, j)))
+                    lambda n, i, j, f=m_index: f(n, i & 0xFF, j)))
 
         def m_assign(n, i, j, et=et):
             l = model_list(et, n)
@@ -108,8 +108,8 @@ def programs():
             r, err = clamp_slice(model_list(et, n), i, j)
             return ("", True) if err else (show_list(r) + "\n", False)
         out.append(("%s/slice_range" % et, su + A + pr("(l im Bereich von i bis j)") + Bm, m_slice))
-        out.append(("%s/slice_from" % et, su + A + pr("(l ab dem i. Element)") + Bm, lambda n, i, j, et=et: m_slice(n, i, n)))
-        out.append(("%s/slice_to" % et, su + A + pr("(l bis zum i. Element)") + Bm, lambda n, i, j, et=et: m_slice(n, 1, i)))
+        out.append(("%s/slice_from" % et, su + A + pr("(l ab dem i. Element)") + Bm, lambda n, i, j, f=m_slice: f(n, i, n)))
+        out.append(("%s/slice_to" % et, su + A + pr("(l bis zum i. Element)") + Bm, lambda n, i, j, f=m_slice: f(n, 1, i)))
     # texts: byte and code-point indices differ
     A, Bm = 'Schreibe "#A" auf eine Zeile.\n', 'Schreibe "#B" auf eine Zeile.\n'
     tsu = HEAD + TEXT_SETUP
